@@ -1,5 +1,6 @@
 (* C13 -- all memory goes through the supplied manager and is fully returned.
-   Statements only; proofs in Proofs/LedgerProofs.v, LedgerOps.v, LedgerBase.v, LedgerNormalize.v, LedgerTheorems.v.
+   Statements only; proofs in Proofs/LedgerProofs.v, LedgerOps.v, LedgerBase.v, LedgerNormalize.v, LedgerTheorems.v,
+   LedgerSane.v, LedgerHistory.v.
 
    The theorems are about the memory tier of the model (Model/Mem.v, Model/ParseM.v, Model/OpsM.v), which
    mirrors the C code allocation by allocation (gen/c13.py, gen/c14.py compare full allocation traces).
@@ -25,7 +26,8 @@
      is observed on the implementation (libc interposition), not proved. *)
 From Coq Require Import List NArith Permutation.
 From UP Require Import Base.Chars Model.Uri Model.Mem Model.ParseM Model.OpsM
-  Proofs.LedgerProofs Proofs.LedgerOps Proofs.LedgerBase Proofs.LedgerNormalize Proofs.LedgerTheorems.
+  Proofs.LedgerProofs Proofs.LedgerOps Proofs.LedgerBase Proofs.LedgerNormalize Proofs.LedgerTheorems
+  Proofs.LedgerTransparent Proofs.LedgerSane Proofs.LedgerHistory.
 Import ListNotations.
 
 (* ---- the release call *)
@@ -125,10 +127,45 @@ Theorem C13_remove_base_balanced : forall domain_root src base s, wf s ->
 Proof. exact remove_base_m_balanced. Qed.
 Print Assumptions C13_remove_base_balanced.
 
-(* ---- histories from the empty ledger: after the matching release calls no block is outstanding.
-   [_partial]: three shapes of histories are stated (any longer history follows by chaining the per-operation
-   theorems above, which hold from any well-formed ledger, but is not stated as one theorem); histories
-   through the query-list functions are not covered. *)
+(* ---- [sane] is kept by every operation, so the theorems above chain over any history *)
+Theorem C13_sane_is_kept : forall csize,
+  (forall mask m s, sane m -> sane (snd (fst (normalize_m csize mask m s))))
+  /\ (forall m s, sane m -> sane (snd (fst (make_owner_m csize m s))))
+  /\ (forall compat rel base s, sane rel -> sane base -> sane (snd (fst (add_base_m compat rel base s))))
+  /\ (forall dr src base s, sane src -> sane base -> sane (snd (fst (remove_base_m dr src base s))))
+  /\ (forall m s, sane m -> sane (fst (free_members m s))).
+Proof.
+  exact (fun csize => conj (normalize_m_sane csize) (conj (make_owner_m_sane csize)
+           (conj add_base_m_sane (conj remove_base_m_sane free_members_sane)))).
+Qed.
+Print Assumptions C13_sane_is_kept.
+
+(* ---- arbitrary histories.  A store of objects and a ledger; [hstep] (Proofs/LedgerHistory.v) applies one of:
+   parse a text (a new object when it parses), normalize / make owner / free members on object i in place,
+   add base / remove base of objects i, j (a new object, whatever the call returns); steps naming an object that
+   does not exist do nothing.  From the empty store and the empty ledger, under ANY fault plan and for ANY list of
+   steps: the live blocks are exactly the blocks of the objects of the store ([balanced]: also every object is
+   consistent with its owner flag), and no release ever hit a block that was not live.
+   [_partial]: the operations are the six covered ones; the query-list functions are not among them. *)
+Theorem C13_any_history_balanced_partial : forall csize p ops,
+  let st := hrun csize ops ([], ms_init p) in balanced (fst st) (snd st) /\ bad_frees (snd st) = 0.
+Proof. exact history_balanced. Qed.
+Print Assumptions C13_any_history_balanced_partial.
+
+Theorem C13_balanced_meaning : forall objs s, balanced objs s <->
+  (wf s /\ Forall (fun m => consistent m /\ sane m) objs /\ Permutation (live_ids s) (flat_map muri_blocks objs)).
+Proof. exact balanced_meaning. Qed.
+Print Assumptions C13_balanced_meaning.
+
+(* ... and once every object of the store has been released (free members on each), nothing is outstanding *)
+Theorem C13_any_history_then_release_leaves_nothing_partial : forall csize p ops,
+  let st := hrun csize ops ([], ms_init p) in
+  let st' := hrun csize (free_all (length (fst st))) st in
+  ms_live (snd st') = [] /\ bad_frees (snd st') = 0.
+Proof. exact history_then_release_leaves_nothing. Qed.
+Print Assumptions C13_any_history_then_release_leaves_nothing_partial.
+
+(* ---- three concrete shapes of histories, spelled out (instances of the above) *)
 Theorem C13_history_parse_normalize_free_partial : forall csize p t mask,
   match parse_m t (ms_init p) with
   | (MOk m, s1) =>
